@@ -370,9 +370,20 @@ inj10 I s:start;y;s:gstop:15:0;M:stop;a:20
 
 JOB_ALPHABET = ["start", "stop", "gstop:15:20", "restart", "grestart:15:20", "tryrestart", "gtryrestart:15:20", "signal:10", "towait", "delete", "deletenow", "run:1", "seterr", "continue"]
 
+JOB_CLONES = [
+    "cl1 E30 s:start;y;s:towait;c:1;c:1;c:2;a:50",
+    "cl2 I s:start;y;s:gstop:15:20;c:1;a:10;c:1;a:50;c:1",
+    "cl3 I s:deletenow;a:10;s:start;c:1;y",
+    "cl4 I s:towait;c:0;s:delete;c:1;c:0;y",
+    "cl5 I s:start;s:towait;c:1;c:1;s:deletenow;c:3;y;c:1",
+    "cl6 S20,I s:start;y;s:gtryrestart:15:50;c:1;c:1;a:30;c:1;a:100",
+    "cl7 F s:start;c:0;c:0;y;c:0",
+    "cl8 I s:start;y;s:towait;c:1;drop;c:1;a:50;c:2",
+]
+
 def job_scripts(seed, n_random, exhaustive_len):
     r = random.Random(seed)
-    out = list(JOB_FIXED)
+    out = list(JOB_FIXED) + JOB_CLONES
     # bounded-exhaustive: every sequence of `exhaustive_len` API calls over the public alphabet, burst and settled, x 3 behaviours
     def seqs(k):
         if k == 0: yield []; return
@@ -417,11 +428,17 @@ def job_scripts(seed, n_random, exhaustive_len):
     for i in range(n_random):
         behs = ",".join(beh() for _ in range(r.randint(1, 4)))
         ops = []
+        nt = 0; awaited = []        # ticket numbers handed out so far; those somebody awaits (and can clone)
         for _ in range(r.randint(2, 12)):
             ops.append(("s:" if r.random() < 0.85 else "n:") + api())
+            if ops[-1][0] == "s": awaited.append(nt)
+            nt += 1
             k = r.random()
             if k < 0.35: ops.append("y")
             elif k < 0.75: ops.append(f"a:{r.choice([0,1,5,10,20,30,50,100,150,300])}")
+            # "every clone of a ticket, any number of tasks waiting": further tasks await clones of earlier tickets (also of clones)
+            while awaited and r.random() < 0.12:
+                ops.append(f"c:{r.choice(awaited)}"); awaited.append(nt); nt += 1
         if r.random() < 0.08:
             # every Job handle is dropped at a random point: nothing can be sent afterwards
             k = r.randrange(len(ops) + 1)
@@ -453,7 +470,10 @@ def job_oracles(script, trace):
     if ended and unres: out.append(("C07", f"job ended but tickets {unres} never resolved"))
     # C07 / C09: with no child left (every spawned one reaped) nothing can hold a control back, so by the end of the
     # script (which ends with a long quiet period) every awaited ticket must have resolved
-    sends = [o for o in ops if o[:2] in ("s:", "n:", "m:", "M:")]
+    sends = []
+    for o in ops:
+        if o[:2] in ("s:", "n:", "m:", "M:"): sends.append(o)
+        elif o[:2] == "c:": sends.append(sends[int(o[2:])] if int(o[2:]) < len(sends) else "s:?")      # a clone waits for what its original waits for
     has_inj = any(o[:2] in ("m:", "M:") for o in ops)    # an injected send may have been dropped: ticket numbers after it are then one lower
     if not live and unres:
         for u in unres:
@@ -480,6 +500,7 @@ def job_oracles(script, trace):
     burst = []
     for o in ops + ["y"]:
         if o[:2] in ("s:", "n:"): burst.append(o); continue
+        if o[:2] == "c:": continue       # cloning a ticket does not yield to the job task
         if any(b.split(":")[1] == "deletenow" for b in burst):
             for b in burst:
                 if b.split(":")[1] == "run" and b.split(":")[2] in ran and sent_runs.count(b.split(":")[2]) == 1:
@@ -1086,13 +1107,98 @@ def worker_stream(pid, ctx):
               "are judged by the schedule-independent oracle only (conservation, never-rejected, non-empty, filter bypass, strict lower bound)")
     return s
 
+def fs_real_stream(pid, ctx):
+    """real filesystem operations under the native and the poll watcher against a real Watchexec instance; judged by Fsrc.segOk"""
+    n = 220 if ctx["thorough"] else 48
+    r = random.Random(ctx["seed"] * 71 + 3)
+    s = core.StreamResult("fs-real")
+    d = core.WORK / pid / "fs-real"; d.mkdir(parents=True, exist_ok=True)
+    cases = core.corpus("fs-real")
+    for i in range(n):
+        kind = "P" if i % 4 == 3 else "N"; mode = "RNF"[i % 3] if i % 5 else "R"
+        files = {"a.txt", "skip.txt", "sub/b.txt", "sub/deep/c.txt", "other/o.txt"}; dirs = {"", "sub", "sub/deep", "other"}
+        ops = []
+        for _ in range(r.randint(3, 7)):
+            k = r.random(); dd = r.choice(sorted(dirs)); pre = dd + "/" if dd else ""
+            name = r.choice(["n%d.txt" % r.randrange(5), "n%d.rs" % r.randrange(3), "skipme%d.txt" % r.randrange(2), "boom%d.txt" % r.randrange(2), "x'y&z.txt", "ü%d.txt" % r.randrange(2)])
+            movable = sorted(f for f in files if f not in ("a.txt", "skip.txt") and "skip" not in f and "boom" not in f)
+            if k < 0.35 and pre + name not in files: ops.append("c:" + pre + name); files.add(pre + name)
+            elif k < 0.55: ops.append("w:" + r.choice(sorted(f for f in files if "boom" not in f)))
+            elif k < 0.7 and movable:
+                f = r.choice(movable); g = pre + "m%d.txt" % r.randrange(9)
+                if g not in files: ops.append(f"mv:{f}:{g}"); files.discard(f); files.add(g)
+            elif k < 0.82 and movable: f = r.choice(movable); ops.append("rm:" + f); files.discard(f)
+            elif k < 0.95:
+                nd = pre + "d%d" % r.randrange(4)
+                if nd not in dirs and nd.count("/") < 3: ops.append("mk:" + nd); dirs.add(nd)
+            else: ops.append("rm:" + pre + "nosuch.txt")      # an operation that fails: nothing happens, nothing is owed
+        if not ops: ops = ["c:z.txt"]
+        cases.append(f"fr{i} {kind} {mode} {';'.join(ops)}")
+    def attempt(cs, k):
+        impl, culprits, fatal = core.run_chunks("wxfsreal", cs, k, 400 if ctx["thorough"] else 200)
+        if fatal: return None, fatal, culprits
+        cs = [c for c in cs if c in impl and " HUNG" not in impl[c] and impl[c].count(" ") >= 2]
+        lines = []
+        for c in cs:
+            f = c.split(" ", 3); segs = impl[c].split(" ", 1)[1].split(" n=")[0]
+            lines.append(f"FR\t{f[1]}\t{f[2]}\t{f[3]}\t{segs}")
+        (d / "cases.txt").write_text("\n".join(lines) + "\n")
+        ok, err = core.run_driver(["fsreal"], d / "cases.txt", d / "model.txt")
+        if not ok: return None, "wxdriver fsreal failed: " + err[-600:], culprits
+        return {c: (impl[c], m) for c, m in zip(cs, core.read_lines(d / "model.txt"))}, None, culprits
+    res, fatal, culprits = attempt(cases, 12)
+    if fatal: s.error = fatal; return s
+    for c, why in culprits: s.oracle_failures.append((cases.index(c), c, "", f"Watchexec gave no answer while real filesystem events were arriving: {why}"))
+    # a report that is merely LATE (a loaded machine) shows as `missing`: such cases run again, two at a time, and count only if the
+    # path is missing in all three runs (a change that loses events loses them every time)
+    for _ in range(2):
+        late = [c for c in cases if c in res and "missing:" in res[c][1]]
+        if not late: break
+        s.bump("timing-suspects-rerun", len(late))
+        again, fatal, _c = attempt(late, 2)
+        if fatal: s.error = fatal; return s
+        res.update(again)
+    cases = [c for c in cases if c in res]
+    impl = {c: res[c][0] for c in cases}; model = [res[c][1] for c in cases]
+    (d / "cases.txt").write_text("\n".join(cases) + "\n"); (d / "impl.txt").write_text("\n".join(impl[c] for c in cases) + "\n"); (d / "model.txt").write_text("\n".join(model) + "\n")
+    s.evaluations = len(cases)
+    for i, (c, mo) in enumerate(zip(cases, model)):
+        o = impl[c]; f = dict(x.split("=", 1) for x in o.split(" ") if "=" in x and x[0] in "nrem")
+        ops = c.split(" ", 3)[3].split(";"); what = None
+        for op, verdict in zip(ops, mo.split("|")):
+            if verdict.startswith("missing:"): what = f"`{op}` happened under a watched path and the filter accepts it, yet no event naming {verdict[8:]} reached the action handler"; break
+            if verdict.startswith("forbidden:"): what = f"after `{op}` the action handler was handed an event naming {verdict[10:]}, which the filter rejects / fails on or which lies outside the watched paths"; break
+        if mo != "|".join(["ok"] * len(ops)): s.disagreements.append((i, c, o, mo))
+        nd, na = f["n"].split("/")
+        if not what and nd != na: what = f"the filter accepted {na} events but the action handler was handed {nd}: an accepted event was lost or handed over twice"
+        if not what and f["empty"] != "0": what = f"the action handler was invoked with an empty batch {f['empty']} time(s)"
+        if pid == "C15" or not what:
+            ne, nh = f["err"].split("/")
+            if ne != nh and not what: what = f"the filter failed on {ne} events but the error handler saw {nh} runtime errors"
+        if not what and f.get("main") != "running": what = f"the main task ended ({f.get('main')}) while filesystem events were being processed"
+        if what: s.oracle_failures.append((i, c, o, what))
+        s.bump("watcher=" + c.split(" ")[1]); s.bump("mode=" + c.split(" ")[2])
+        for op in ops: s.bump("op " + op.split(":")[0])
+        s.bump("events delivered", int(nd)); s.bump("events rejected by the filter", int(f["rej"])); s.bump("filter errors", int(f["err"].split("/")[0]))
+        if int(nd) >= 3: s.nontrivial.add(hashlib.md5((c.split(" ", 1)[1] + o).encode()).digest()[:8])
+        if i % max(1, len(cases) // 3) == 0 and len(s.samples) < 3: s.samples.append({"case": c, "impl": o, "model": mo})
+    s.note = ("a real Watchexec instance (main(), fs worker with the NATIVE (inotify) or the POLL watcher, action worker, error hook) over a temp tree; real create / append / rename / "
+              "remove / mkdir operations, watch configurations root recursive / root non-recursive / subtree + single file, a filterer that rejects `skip` paths and fails on `boom` paths; "
+              "judged by Fsrc.segOk (every operation on a visible accepted path is reported, nothing rejected / erroring / outside the watched area is delivered) and by the counters "
+              "(delivered = accepted, no empty batch, one handled error per filter failure); appends under the poll watcher are not demanded (notify compares whole seconds)")
+    return s
+
 def worker_plan(pid, theorems, rule_extra):
-    return dict(modules=["Wx.Glob.Throttle", "Wx.Glob.ThrottleRun"], theorems=theorems, bins=[("lib", ["wxthrottle"])], streams=lambda ctx: [worker_stream(pid, ctx)],
-                sources=["crates/lib/src/action/worker.rs", "crates/lib/src/watchexec.rs", "crates/lib/src/filter.rs", "crates/events/src/event.rs"],
+    fsreal = pid == "C01"
+    return dict(modules=["Wx.Glob.Throttle", "Wx.Glob.ThrottleRun"] + (["Wx.Fs.Source"] if fsreal else []),
+                theorems=theorems + (["Fsrc.rejected_never_ok", "Fsrc.outside_never_ok", "Fsrc.missing_is_flagged"] if fsreal else []),
+                bins=[("lib", ["wxthrottle"] + (["wxfsreal"] if fsreal else []))],
+                streams=(lambda ctx: [worker_stream(pid, ctx), fs_real_stream(pid, ctx)]) if fsreal else (lambda ctx: [worker_stream(pid, ctx)]),
+                sources=["crates/lib/src/action/worker.rs", "crates/lib/src/watchexec.rs", "crates/lib/src/filter.rs", "crates/events/src/event.rs"] + (["crates/lib/src/sources/fs.rs"] if fsreal else []),
                 rule="a case is one arrival script (throttle, handler time, events with time / priority / emptiness / filter verdict); non-trivial = at least two batches; distinct by (script, observation). " + rule_extra,
                 assumptions=["async-priority-channel is a bounded priority heap (order within one priority unspecified) — external, modelled as the turn input",
                              "tokio::time::timeout and std::time::Instant: each clock reading is an input of a turn; only monotonicity is relied on",
-                             "delivery of filesystem events by inotify/poll and of signals by the OS is not modelled"],
+                             "which events inotify / the poll watcher emit for an operation is not modelled (notify is external); the fs-real stream of C01 demands only that every operation on a watched, accepted path is reported at least once and nothing else is; delivery of signals by the OS is not modelled"],
                 partial="the real-time stream cannot place arrivals exactly on window edges; the theorems cover every clock reading, the stream validates the model away from the edges")
 
 PLANS["C01"] = worker_plan("C01", ["Sp.Th.worker_conserve", "Sp.Th.worker_nonempty", "Sp.Th.worker_only_accepted", "Sp.Th.turn_rejected", "Sp.Th.collect_conserve", "Sp.Th.turn_batch", "Sp.Th.turn_next_set", "Sp.Th.turn_filtered", "Sp.Th.classify_spec", "Sp.Th.accepted_iff"],
